@@ -68,6 +68,9 @@ type Violation struct {
 type RunResult struct {
 	Start *int `json:"start,omitempty"` // "run i is about to start" marker
 	Done  bool `json:"done,omitempty"`  // last line of a worker
+	// Next (with Done): the worker stopped early because its heap had grown past the
+	// recycling limit; the runs from this index on are for a fresh process.
+	Next *int `json:"next,omitempty"`
 
 	Index       int              `json:"index"`
 	Config      *RunConfig       `json:"config,omitempty"`
